@@ -187,7 +187,7 @@ class StmtMixin:
         if z3.is_false(c):
             return self.exec_block(s.orelse)
         # merging is attempted identically on replay, so that the decision trail stays aligned
-        if self.merge_enabled and _simple_body(s.body) and _simple_body(s.orelse):
+        if self.merge_enabled and not getattr(self.cur_contract, 'no_merge', False) and _simple_body(s.body) and _simple_body(s.orelse):
             if self._merged_if(s, c):
                 return
         if self.decide([c, z3.Not(c)]) == 0:
@@ -465,12 +465,16 @@ class StmtMixin:
             self.assign(s.target, x)
         else:
             nxt = ghosts
+        lkey = (self.frame_fn().qualname, ordinal)
+        self.loop_stack.append(lkey)
         try:
             self.exec_block(s.body)
         except ContinueEx:
             pass
         except BreakEx:
             return
+        finally:
+            self.loop_stack.pop()
         ghosts.update(nxt)
         self.oblige(f"inv{ordinal}.pres", inv_formula(), s)
         raise PathEnd()
@@ -503,7 +507,6 @@ class StmtMixin:
         self.saw_loop = True
         if self.discovery:
             self.materialise_all()
-            self.loop_stack.append(key)
             return list(self.st.heap.keys())
         for k in self.loop_writes.get(key, ()):
             self.materialise(k)
